@@ -214,9 +214,11 @@ pub open spec fn track_parsed(t: Mp4Track) -> bool {
     &&& stbl_parsed(stbl_of(t))
     &&& t.trafs@.len() == t.moof_offsets@.len()
     &&& trafs_parsed(t.trafs@)
-    // domain assumption (not a parser guarantee): fewer than 2^32 track fragments per track (>= 64 GiB of traf headers otherwise)
-    &&& t.trafs@.len() <= 0xffff_ffff
 }
+
+/// DOMAIN ASSUMPTION (not a parser guarantee; stated as an explicit precondition of the sample-reading API):
+/// fewer than 2^32 track fragments per track (a file would need more than 32 GiB of traf headers to violate it)
+pub open spec fn frag_count_ok(t: Mp4Track) -> bool { t.trafs@.len() <= 0xffff_ffff }
 
 pub open spec fn track_plain(t: Mp4Track) -> bool { t.trafs@.len() == 0 }
 
@@ -355,3 +357,29 @@ pub proof fn lemma_stts_cover_exists(e: Seq<SttsEntry>, n: int, k: int)
 pub open spec fn reader_wf<R>(m: Mp4Reader<R>) -> bool {
     forall|id: u32| #[trigger] m.tracks@.contains_key(id) ==> track_parsed(m.tracks@[id])
 }
+
+pub open spec fn reader_frag_count_ok<R>(m: Mp4Reader<R>) -> bool {
+    forall|id: u32| #[trigger] m.tracks@.contains_key(id) ==> frag_count_ok(m.tracks@[id])
+}
+
+pub open spec fn trak_parsed(t: TrakBox) -> bool { stbl_parsed(t.mdia.minf.stbl) }
+
+pub open spec fn moov_parsed(m: MoovBox) -> bool {
+    forall|i: int| 0 <= i < m.traks@.len() ==> trak_parsed(#[trigger] m.traks@[i])
+}
+
+pub open spec fn moofs_parsed(ms: Seq<MoofBox>) -> bool {
+    forall|i: int| 0 <= i < ms.len() ==> trafs_parsed((#[trigger] ms[i]).trafs@)
+}
+
+// typed wrappers: a loop invariant over `let mut x = None;` cannot field-access x before rustc has inferred its type
+pub open spec fn opt_stsc_ok(o: Option<StscBox>) -> bool { o matches Some(x) ==> stsc_derived_ok(x.entries@, x.entries@.len() as int) }
+pub open spec fn opt_stsz_ok(o: Option<StszBox>) -> bool { o matches Some(x) ==> stsz_fields_wire(x) }
+pub open spec fn opt_stco_ok(o: Option<StcoBox>) -> bool { o matches Some(x) ==> stco_fields_wire(x) }
+pub open spec fn opt_co64_ok(o: Option<Co64Box>) -> bool { o matches Some(x) ==> co64_fields_wire(x) }
+pub open spec fn opt_stbl_ok(o: Option<StblBox>) -> bool { o matches Some(x) ==> stbl_parsed(x) }
+pub open spec fn opt_minf_ok(o: Option<MinfBox>) -> bool { o matches Some(x) ==> stbl_parsed(x.stbl) }
+pub open spec fn opt_mdia_ok(o: Option<MdiaBox>) -> bool { o matches Some(x) ==> stbl_parsed(x.minf.stbl) }
+pub open spec fn opt_trun_ok(o: Option<TrunBox>) -> bool { o matches Some(x) ==> trun_parsed(x) }
+pub open spec fn traks_ok(v: Seq<TrakBox>) -> bool { forall|i: int| 0 <= i < v.len() ==> trak_parsed(#[trigger] v[i]) }
+pub open spec fn opt_moov_ok(o: Option<MoovBox>) -> bool { o matches Some(x) ==> moov_parsed(x) }
